@@ -100,57 +100,60 @@ Definition const_value (c : constv) : value :=
 
 Definition run := (mres * list logev)%type.
 
+(* what one method body does, given how to call another method of the same object ([vc], virtual:
+   looked up from type(self)) and how to call the next definition along the MRO ([sup], super()) *)
+Definition kind_sem (c : cname) (p : party) (a : arg) (vc sup : mname -> arg -> run) (k : mkind) : run :=
+  match k with
+  | KFail => (MRaise p, [])
+  | KFailLogged =>
+      let '(r, l) := sup m_fail ANone in
+      match r with
+      | MRaise q => (MRaise q, l ++ [LErr p])
+      | MRet _ => (MRet VNoneV, l)
+      | x => (x, l)
+      end
+  | KGetattrFail => match a with AName true => (MAttrErr, []) | _ => vc m_fail ANone end
+  | KGetattrSelf => match a with AName true => (MAttrErr, []) | _ => (MRet (VUnd p), []) end
+  | KRetSelf => (MRet (VUnd p), [])
+  | KRetConst v => (MRet (const_value v), [])
+  | KEqType => (MRet (VB match a with AOp (Und c' _) => cname_eqb c c' | _ => false end), [])
+  | KNeNotEq =>
+      let '(r, l) := vc m_eq a in
+      match r with
+      | MRet (VB b) => (MRet (VB (negb b)), l)
+      | MRet _ => (MUnmod, l)
+      | x => (x, l)
+      end
+  | KHashType => (MRet VHashC, [])
+  | KIterEmpty => (MRet VIter0, [])
+  | KDebugStr => (MRet (VDebug p), [])
+  | KStrOfSelf =>
+      let '(r, l) := vc m_str ANone in
+      match r with
+      | MRet VStr0 | MRet VStrX | MRet (VDebug _) | MRaise _ => (r, l)
+      | _ => (MUnmod, l)
+      end
+  | KLogSuper m => let '(r, l) := sup m ANone in (r, LWarn p :: l)
+  | KAiterEmpty => (MRet VAIter0, [])
+  | KHashNone | KInit | KMessage | KOther => (MUnmod, [])
+  end.
+
 Fixpoint call (fuel : nat) (T : tables) (c : cname) (p : party) (me : method) (rest : list cname) (a : arg) : run :=
   match fuel with
   | O => (MUnmod, [])
   | S f =>
-      let vcall := fun (m : mname) (a' : arg) =>
-        match lookup T c m with
-        | None => (MNoMethod, [])
-        | Some (me', rest') => call f T c p me' rest' a'
-        end in
-      match mk me with
-      | KFail => (MRaise p, [])
-      | KFailLogged =>
-          match lookup_in T rest m_fail with
-          | None => (MUnmod, [])
-          | Some (me', rest') =>
-              let '(r, l) := call f T c p me' rest' ANone in
-              match r with
-              | MRaise q => (MRaise q, l ++ [LErr p])
-              | MRet _ => (MRet VNoneV, l)
-              | x => (x, l)
-              end
-          end
-      | KGetattrFail => match a with AName true => (MAttrErr, []) | _ => vcall m_fail ANone end
-      | KGetattrSelf => match a with AName true => (MAttrErr, []) | _ => (MRet (VUnd p), []) end
-      | KRetSelf => (MRet (VUnd p), [])
-      | KRetConst v => (MRet (const_value v), [])
-      | KEqType => (MRet (VB match a with AOp (Und c' _) => cname_eqb c c' | _ => false end), [])
-      | KNeNotEq =>
-          let '(r, l) := vcall m_eq a in
-          match r with
-          | MRet (VB b) => (MRet (VB (negb b)), l)
-          | MRet _ => (MUnmod, l)
-          | x => (x, l)
-          end
-      | KHashType => (MRet VHashC, [])
-      | KIterEmpty => (MRet VIter0, [])
-      | KDebugStr => (MRet (VDebug p), [])
-      | KStrOfSelf =>
-          let '(r, l) := vcall m_str ANone in
-          match r with
-          | MRet VStr0 | MRet VStrX | MRet (VDebug _) | MRaise _ => (r, l)
-          | _ => (MUnmod, l)
-          end
-      | KLogSuper m =>
-          match lookup_in T rest m with
-          | None => (MUnmod, [LWarn p])
-          | Some (me', rest') => let '(r, l) := call f T c p me' rest' a in (r, LWarn p :: l)
-          end
-      | KAiterEmpty => (MRet VAIter0, [])
-      | KHashNone | KInit | KMessage | KOther => (MUnmod, [])
-      end
+      kind_sem c p a
+        (fun (m : mname) (a' : arg) =>
+           match lookup T c m with
+           | None => (MNoMethod, [])
+           | Some (me', rest') => call f T c p me' rest' a'
+           end)
+        (fun (m : mname) (a' : arg) =>
+           match lookup_in T rest m with
+           | None => (MUnmod, [])
+           | Some (me', rest') => call f T c p me' rest' a'
+           end)
+        (mk me)
   end.
 
 Definition FUEL : nat := 8.
